@@ -63,7 +63,63 @@ func ruleEOFNotAnError(c *Ctx, rule string) {
 					}
 				}
 			}
+			// ... or is handed to a helper that panics with the error it is given when it is not nil (`check(err)`)
+			var helperCall *ssa.Call
+			helperExcludesEOF := false
 			if panicIf == nil {
+				for _, ref := range *errVal.Referrers() {
+					cl, ok := ref.(*ssa.Call)
+					if !ok {
+						continue
+					}
+					g := cl.Call.StaticCallee()
+					if g == nil || !c.isRepoFn(g) || len(g.Blocks) == 0 {
+						continue
+					}
+					for i, a := range cl.Call.Args {
+						if a != errVal || i >= len(g.Params) {
+							continue
+						}
+						prm := g.Params[i]
+						instrsOf(g, func(y ssa.Instruction) {
+							iff, ok := y.(*ssa.If)
+							if !ok {
+								return
+							}
+							cs := exprStr(iff.Cond)
+							if strings.Contains(cs, prm.Name()+" != nil") {
+								reachesPanic := false
+								seenB := map[*ssa.BasicBlock]bool{}
+								work := []*ssa.BasicBlock{iff.Block().Succs[0]}
+								for len(work) > 0 {
+									b := work[len(work)-1]
+									work = work[:len(work)-1]
+									if seenB[b] {
+										continue
+									}
+									seenB[b] = true
+									for _, z := range b.Instrs {
+										if _, ok := z.(*ssa.Panic); ok {
+											reachesPanic = true
+										}
+										if i2, ok := z.(*ssa.If); ok && strings.Contains(exprStr(i2.Cond), "EOF") {
+											helperExcludesEOF = true
+										}
+									}
+									work = append(work, b.Succs...)
+								}
+								if reachesPanic {
+									helperCall = cl
+								}
+							}
+							if strings.Contains(cs, "EOF") {
+								helperExcludesEOF = true
+							}
+						})
+					}
+				}
+			}
+			if panicIf == nil && helperCall == nil {
 				return
 			}
 			n++
@@ -71,14 +127,27 @@ func ruleEOFNotAnError(c *Ctx, rule string) {
 			ob := r.Ob(rule, fmt.Sprintf("%s: %s call #%d does not treat end of input as a failure", fnName(fn), name, k), c.pos(call.Pos()))
 			// (a) io.EOF excluded on the way to the panic
 			eofExcluded := false
-			t := panicIf.Block().Succs[0]
-			if iff2, ok := t.Instrs[len(t.Instrs)-1].(*ssa.If); ok {
-				if strings.Contains(exprStr(iff2.Cond), "EOF") {
+			if helperCall != nil {
+				eofExcluded = helperExcludesEOF
+				for _, l := range domConds(fn, helperCall.Block()) {
+					if b, ok := l.Cond.(*ssa.BinOp); ok && strings.Contains(exprStr(b), "EOF") {
+						if (b.Op == token.NEQ && l.Pol) || (b.Op == token.EQL && !l.Pol) {
+							eofExcluded = true
+						}
+					}
+				}
+				panicIf = nil
+			}
+			if panicIf != nil {
+				t := panicIf.Block().Succs[0]
+				if iff2, ok := t.Instrs[len(t.Instrs)-1].(*ssa.If); ok {
+					if strings.Contains(exprStr(iff2.Cond), "EOF") {
+						eofExcluded = true
+					}
+				}
+				if strings.Contains(exprStr(panicIf.Cond), "EOF") {
 					eofExcluded = true
 				}
-			}
-			if strings.Contains(exprStr(panicIf.Cond), "EOF") {
-				eofExcluded = true
 			}
 			// short-circuit `err != nil && err != io.EOF` puts the EOF test in the true successor
 			for _, ref := range *errVal.Referrers() {
@@ -1214,6 +1283,31 @@ func lengthPositiveAt(fn *ssa.Function, lenStr string, at ssa.Instruction) bool 
 		if !ok {
 			continue
 		}
+		// a predicate helper that answers false for a zero argument: `if !fits(length, ...) { return }`
+		{
+			cv, pol := iff.Cond, true
+			if u, ok := cv.(*ssa.UnOp); ok && u.Op == token.NOT {
+				cv, pol = u.X, false
+			}
+			if call, ok := cv.(*ssa.Call); ok {
+				if g := call.Call.StaticCallee(); g != nil && len(g.Blocks) > 0 {
+					for i, a := range call.Call.Args {
+						if exprStr(a) != lenStr || i >= len(g.Params) {
+							continue
+						}
+						if falseForZero(g, g.Params[i]) {
+							okSucc := b.Succs[0]
+							if !pol {
+								okSucc = b.Succs[1]
+							}
+							if okSucc == at.Block() || okSucc.Dominates(at.Block()) {
+								return true
+							}
+						}
+					}
+				}
+			}
+		}
 		bo, ok := iff.Cond.(*ssa.BinOp)
 		if !ok || exprStr(bo.X) != lenStr {
 			continue
@@ -1411,4 +1505,295 @@ func sameCallValue(a, b ssa.Value, depth int) bool {
 		}
 	}
 	return true
+}
+
+// ruleReaderOffsetsAreFileOffsets implements C03.R6 / C07.R6: a files.Reader addresses the input by byte offsets of the input
+// itself. Its size is fixed by the constructor (nobody else writes the field) and Seek positions the contents at exactly the offset
+// it is given (no hidden base), so offsets reported in matches index the text the caller handed in.
+func ruleReaderOffsetsAreFileOffsets(c *Ctx, rule string) {
+	r := c.R
+	rdT := c.NamedType("files", "Reader")
+	seek := c.Method("files", "Reader", "Seek")
+	if rdT == nil || seek == nil {
+		r.Ob(rule, "anchor files.Reader / Seek", "").Und("not found")
+		return
+	}
+	// who writes size
+	ob := r.Ob(rule, "files.Reader.size is fixed by the constructor", c.pos(rdT.Obj().Pos()))
+	var writers []string
+	nlit := 0
+	for _, fn := range c.SrcFuncs("files") {
+		instrsOf(fn, func(in ssa.Instruction) {
+			st, ok := in.(*ssa.Store)
+			if !ok {
+				return
+			}
+			fa, ok := st.Addr.(*ssa.FieldAddr)
+			if !ok || !types.Identical(deref(fa.X.Type()), rdT) || fieldName(rdT, fa.Field) != "size" {
+				return
+			}
+			if a, isAlloc := fa.X.(*ssa.Alloc); isAlloc {
+				// a composite literal being filled in: the only store to that field of that object in the function
+				cnt := 0
+				for _, ref := range *a.Referrers() {
+					if fa2, ok := ref.(*ssa.FieldAddr); ok && fa2.Field == fa.Field {
+						for _, r2 := range *fa2.Referrers() {
+							if _, ok := r2.(*ssa.Store); ok {
+								cnt++
+							}
+						}
+					}
+				}
+				if cnt == 1 {
+					nlit++
+					return
+				}
+			}
+			writers = append(writers, fnName(fn)+" ["+c.pos(st.Pos())+"]")
+		})
+	}
+	if len(writers) == 0 && nlit > 0 {
+		ob.OKnt(fmt.Sprintf("set in %d constructor literal(s) and nowhere else", nlit))
+	} else if len(writers) > 0 {
+		ob.Bad("the size is changed after construction in " + strings.Join(writers, ", ") + ": Size() no longer is the length of the input, and offsets near the end are cut off")
+	} else {
+		ob.Und("no store to the size field found")
+	}
+	// Seek passes the offset through
+	ob2 := r.Ob(rule, "files.Reader.Seek positions the contents at the requested offset", c.pos(seek.Pos()))
+	if len(seek.Params) < 2 {
+		ob2.Und("unexpected signature")
+		return
+	}
+	off := seek.Params[1]
+	verdict := ""
+	var examine func(fn *ssa.Function, offVal ssa.Value, depth int)
+	examine = func(fn *ssa.Function, offVal ssa.Value, depth int) {
+		instrsOf(fn, func(in ssa.Instruction) {
+			call, ok := in.(*ssa.Call)
+			if !ok {
+				return
+			}
+			if call.Call.IsInvoke() && call.Call.Method.Name() == "Seek" && len(call.Call.Args) >= 1 {
+				terms, k := linearOver(call.Call.Args[0])
+				if len(terms) == 1 && terms[offVal] == 1 && k == 0 {
+					if verdict == "" {
+						verdict = "ok"
+					}
+				} else {
+					verdict = "the contents are positioned at " + exprStr(call.Call.Args[0]) + " instead of the requested offset"
+				}
+				return
+			}
+			if g := call.Call.StaticCallee(); g != nil && c.isRepoFn(g) && depth == 0 {
+				for i, a := range call.Call.Args {
+					terms, k := linearOver(a)
+					if len(terms) == 1 && terms[offVal] == 1 && k == 0 && i < len(g.Params) {
+						examine(g, g.Params[i], depth+1)
+					} else if _, dep := terms[offVal]; dep {
+						verdict = "the offset handed to " + g.Name() + " is " + exprStr(a) + " instead of the requested offset"
+					}
+				}
+			}
+		})
+	}
+	examine(seek, off, 0)
+	switch verdict {
+	case "ok":
+		ob2.OKnt("contents.Seek(offset, io.SeekStart) with the parameter unchanged")
+	case "":
+		ob2.Und("no Seek on the contents found")
+	default:
+		ob2.Bad(verdict + ": every offset the engine reports is shifted against the input the caller supplied")
+	}
+}
+
+// ruleNoSharedBuffers implements C07.R7: assigning one buffer-holding field of an object to another field of the same object copies
+// the slice header, not the bytes. If the source field's buffer is then refilled before the source field itself is replaced, the copy
+// silently changes with it while its bookkeeping (offsets) still describes the old bytes.
+func ruleNoSharedBuffers(c *Ctx, rule string) {
+	r := c.R
+	hasSlice := func(t types.Type) bool {
+		var w func(t types.Type, d int) bool
+		w = func(t types.Type, d int) bool {
+			if d > 4 {
+				return false
+			}
+			switch u := t.Underlying().(type) {
+			case *types.Slice:
+				return true
+			case *types.Struct:
+				for i := 0; i < u.NumFields(); i++ {
+					if w(u.Field(i).Type(), d+1) {
+						return true
+					}
+				}
+			}
+			return false
+		}
+		return w(t, 0)
+	}
+	// field path of an address relative to its root: "window.buffer"
+	pathOf := func(addr ssa.Value) (ssa.Value, string) {
+		ch := traceAddr(addr)
+		var parts []string
+		for i := len(ch.Steps) - 1; i >= 0; i-- {
+			if ch.Steps[i].Kind == "field" {
+				parts = append(parts, ch.Steps[i].Field)
+			}
+		}
+		return ch.Root, strings.Join(parts, ".")
+	}
+	n := 0
+	var problems []string
+	first := ""
+	for _, fn := range c.SrcFuncs("files") {
+		instrsOf(fn, func(in ssa.Instruction) {
+			st, ok := in.(*ssa.Store)
+			if !ok || !hasSlice(st.Val.Type()) {
+				return
+			}
+			ld, ok := st.Val.(*ssa.UnOp)
+			if !ok || ld.Op != token.MUL {
+				return
+			}
+			srcRoot, srcPath := pathOf(ld.X)
+			dstRoot, dstPath := pathOf(st.Addr)
+			if srcRoot != dstRoot || srcPath == "" || dstPath == "" || srcPath == dstPath {
+				return
+			}
+			if _, isParam := srcRoot.(*ssa.Parameter); !isParam {
+				return
+			}
+			// a swap: the source field was already given another value between the load and this store
+			replaced := false
+			instrsOf(fn, func(y ssa.Instruction) {
+				if s2, ok := y.(*ssa.Store); ok && s2 != st {
+					if rt, p := pathOf(s2.Addr); rt == srcRoot && p == srcPath && instrDominates(ld, s2) && instrDominates(s2, st) {
+						replaced = true
+					}
+				}
+			})
+			if replaced {
+				return
+			}
+			n++
+			// forward: is the source field's buffer written before the source field is replaced?
+			seen := map[*ssa.BasicBlock]bool{}
+			problem := ""
+			var walk func(b *ssa.BasicBlock, from int)
+			walk = func(b *ssa.BasicBlock, from int) {
+				for i := from; i < len(b.Instrs) && problem == ""; i++ {
+					switch x := b.Instrs[i].(type) {
+					case *ssa.Store:
+						rt, p := pathOf(x.Addr)
+						if rt == srcRoot && p == srcPath {
+							return // the source field now holds something else
+						}
+						if ia, ok := x.Addr.(*ssa.IndexAddr); ok {
+							rt2, p2 := pathOf(ia.X)
+							if rt2 == srcRoot && strings.HasPrefix(p2, srcPath) {
+								problem = "an element of " + srcPath + " is stored at " + c.pos(x.Pos())
+							}
+						}
+					case *ssa.Call:
+						sc := x.Call.StaticCallee()
+						name := ""
+						if sc != nil {
+							name = sc.Name()
+						} else if x.Call.IsInvoke() {
+							name = x.Call.Method.Name()
+						} else if bi, ok := x.Call.Value.(*ssa.Builtin); ok {
+							name = bi.Name()
+						}
+						if name != "ReadAt" && name != "Read" && name != "ReadFull" && name != "copy" {
+							continue
+						}
+						for ai, a := range x.Call.Args {
+							if name == "copy" && ai != 0 {
+								continue
+							}
+							if _, isSl := a.Type().Underlying().(*types.Slice); !isSl {
+								continue
+							}
+							v := a
+							if sl, ok := v.(*ssa.Slice); ok {
+								v = sl.X
+							}
+							rt2, p2 := pathOf(v)
+							if rt2 == srcRoot && (p2 == srcPath || strings.HasPrefix(p2, srcPath+".")) {
+								problem = name + " fills " + p2 + " at " + c.pos(x.Pos())
+							}
+						}
+					}
+				}
+				if problem != "" {
+					return
+				}
+				for _, s := range b.Succs {
+					if !seen[s] {
+						seen[s] = true
+						walk(s, 0)
+					}
+				}
+			}
+			idx := 0
+			for i, x := range st.Block().Instrs {
+				if x == ssa.Instruction(st) {
+					idx = i + 1
+				}
+			}
+			walk(st.Block(), idx)
+			if problem != "" {
+				problems = append(problems, fmt.Sprintf("%s: %s = %s [%s] shares the buffer, and then %s", fnName(fn), dstPath, srcPath, c.pos(st.Pos()), problem))
+				if first == "" {
+					first = c.pos(st.Pos())
+				}
+			}
+		})
+	}
+	r.Stats["buffer_holding_fields_copied_to_sibling_fields"] = n
+	ob := r.Ob(rule, "package files: no two fields of one object share a buffer that is refilled", first)
+	if len(problems) == 0 {
+		ob.OKnt(fmt.Sprintf("%d assignment(s) of a buffer-holding field to a sibling field; none is followed by a refill of the source before the source is replaced", n))
+	} else {
+		ob.Bad(strings.Join(problems, "; ") + ": the bytes change under the copy while its offsets still describe the old contents, so a later read from the copy returns bytes of another part of the file")
+	}
+}
+
+// falseForZero: the bool function g returns false whenever its integer parameter p is zero (a test `p == 0` / `p <= 0` / `p < 1`
+// in its entry block leads to `return false`).
+func falseForZero(g *ssa.Function, p *ssa.Parameter) bool {
+	if len(g.Blocks) == 0 {
+		return false
+	}
+	b := g.Blocks[0]
+	iff, ok := b.Instrs[len(b.Instrs)-1].(*ssa.If)
+	if !ok {
+		return false
+	}
+	bo, ok := iff.Cond.(*ssa.BinOp)
+	if !ok || bo.X != ssa.Value(p) {
+		return false
+	}
+	k, isC := constInt(bo.Y)
+	if !isC {
+		return false
+	}
+	var zeroSucc *ssa.BasicBlock
+	switch {
+	case bo.Op == token.EQL && k == 0, bo.Op == token.LEQ && k == 0, bo.Op == token.LSS && k == 1:
+		zeroSucc = b.Succs[0]
+	case bo.Op == token.NEQ && k == 0, bo.Op == token.GTR && k == 0, bo.Op == token.GEQ && k == 1:
+		zeroSucc = b.Succs[1]
+	}
+	if zeroSucc == nil {
+		return false
+	}
+	if ret, ok := zeroSucc.Instrs[len(zeroSucc.Instrs)-1].(*ssa.Return); ok && len(ret.Results) == 1 {
+		if kc, ok := ret.Results[0].(*ssa.Const); ok && kc.Value != nil && kc.Value.Kind() == constant.Bool && !constant.BoolVal(kc.Value) {
+			return true
+		}
+	}
+	return false
 }
